@@ -52,6 +52,7 @@ THEOREMS = [
     'C08_raised_load_resolves_as_before',
     'C08_load_none_hides_variadic',
     'C08_load_none_unbound',
+    'C08_noncallable_member_raises',
     'C08_register_get',
     'C08_history_refines_spec',
     'C08_defs_of_spec',
